@@ -1,1 +1,95 @@
+(* C18_Spec.v — what "lossless" means, written from the property text:
+   an error keeps its code, message and every detail (type and bytes); metadata keeps
+   every key up to letter case and every value in order, `-bin` values base64-encoded
+   exactly once; percent-encoding is invertible and printable; the strict codecs decode
+   what they encode and reject unknown fields.  No reference to how the conversions are
+   programmed; the third-party libraries appear as contracts (what is assumed of them). *)
 From V Require Export C18_Model.
+Open Scope N_scope.
+
+(* ---------------------------------------------------------------------- *)
+(* 1. Errors                                                               *)
+(* ---------------------------------------------------------------------- *)
+(* The type of a detail is the text after the last '/' of its type URL. *)
+Definition type_of (url : bytes) : bytes := last (split_on slash url) [].
+
+Definition int32 (z : Z) : Prop := (- 2147483648 <= z < 2147483648)%Z.
+Definition uint32 (z : Z) : Prop := (0 <= z < 4294967296)%Z.
+
+(* the message text: an unset message and an empty one are the same text *)
+Definition message_of (e : perr) : bytes := get_msg (p_msg e).
+
+Definition same_detail (a b : any) : Prop := type_of (fst a) = type_of (fst b) /\ snd a = snd b.
+
+(* same code, same message text, the same details (type and bytes) in the same order *)
+Definition same_error (a b : perr) : Prop :=
+  p_code a = p_code b /\ message_of a = message_of b /\ Forall2 same_detail (p_details a) (p_details b).
+
+(* a type URL as protoyaml / anypb.MarshalFrom write it: the default prefix and a type name *)
+Definition canonical_url (url : bytes) : Prop :=
+  exists name, url = default_prefix ++ name /\ ~ In slash name.
+Definition canonical_details (ds : list any) : Prop := Forall (fun a => canonical_url (fst a)) ds.
+
+(* what an observer of a Connect error can see: Code(), Message(), Type()/Bytes() of each detail *)
+Definition cerr_view (d_type d_bytes : cdetail -> bytes) (c : cerr) : Z * bytes * list (bytes * bytes) :=
+  (c_code c, c_msg c, map (fun d => (d_type d, d_bytes d)) (c_details c)).
+
+(* assumed of connect-go: NewErrorDetail succeeds on an Any; Type() is the name after the
+   last '/', Bytes() the value *)
+Definition detail_contract (new_detail : any -> option cdetail) (d_type d_bytes : cdetail -> bytes) : Prop :=
+  forall a, exists d, new_detail a = Some d /\ d_type d = type_of (fst a) /\ d_bytes d = snd a.
+
+(* ---------------------------------------------------------------------- *)
+(* 2. Header lists and metadata                                            *)
+(* ---------------------------------------------------------------------- *)
+(* header h carries values for metadata key k when its name is k up to letter case *)
+Definition names_match (k : bytes) (h : header) : bool := bytes_eqb (lower (fst h)) k.
+Definition occurs (k : bytes) (hs : list header) : bool := existsb (names_match k) hs.
+(* every value given for k, over all occurrences of the name, in order *)
+Definition values_for (k : bytes) (hs : list header) : list bytes :=
+  flat_map (fun h => if names_match k h then snd h else []) hs.
+(* the same for any way of normalising names (canonical MIME form for http.Header) *)
+Definition values_under (norm : bytes -> bytes) (k : bytes) (hs : list header) : list bytes :=
+  flat_map (fun h => if bytes_eqb (norm (fst h)) k then snd h else []) hs.
+
+Definition some_nonempty (l : list bytes) : option (list bytes) :=
+  match l with [] => None | _ => Some l end.
+
+(* assumed of base64 (connect.EncodeBinaryHeader / DecodeBinaryHeader) *)
+Definition b64_contract (enc : bytes -> bytes) (dec : bytes -> option bytes) : Prop :=
+  forall x, dec (enc x) = Some x.
+
+(* the header list is what a conversion from binary metadata produces: every value of a
+   `-bin` header is the base64 text of some byte string *)
+Definition canonical_bin (enc : bytes -> bytes) (hs : list header) : Prop :=
+  forall h v, In h hs -> is_bin (lower (fst h)) = true -> In v (snd h) -> exists raw, v = enc raw.
+
+(* ---------------------------------------------------------------------- *)
+(* 3. Percent-encoding                                                     *)
+(* ---------------------------------------------------------------------- *)
+Definition is_byte (c : N) : Prop := c < 256.
+Definition printable_ascii (c : N) : Prop := 32 <= c <= 126.
+(* needs no escape: printable and not the escape character itself *)
+Definition safe_char (c : N) : Prop := printable_ascii c /\ c <> 37.
+
+(* ---------------------------------------------------------------------- *)
+(* 4. Strict codecs                                                        *)
+(* ---------------------------------------------------------------------- *)
+(* an unrecognised field somewhere in the message: at this level or in a message below *)
+Inductive has_unknown : pmsg -> Prop :=
+| hu_here k u subs : u <> [] -> has_unknown (PMsg k u subs)
+| hu_below k u subs s : In s subs -> has_unknown s -> has_unknown (PMsg k u subs).
+
+(* assumed of proto.Marshal / proto.Unmarshal: the binary format carries everything,
+   unrecognised fields included *)
+Definition bin_contract {wire} (marshal : pmsg -> wire) (unmarshal : wire -> option pmsg) : Prop :=
+  forall m, unmarshal (marshal m) = Some m.
+
+(* assumed of protojson: a message without unrecognised fields is read back from its JSON
+   form; strict parsing (DiscardUnknown unset) fails on text with an unrecognised key
+   (json_unknown w) and never yields a message with unrecognised fields *)
+Definition json_contract {wire} (marshal : pmsg -> wire) (unmarshal : bool -> wire -> option pmsg)
+           (json_unknown : wire -> Prop) : Prop :=
+  (forall m, ~ has_unknown m -> unmarshal false (marshal m) = Some m) /\
+  (forall w, json_unknown w -> unmarshal false w = None) /\
+  (forall w m, unmarshal false w = Some m -> ~ has_unknown m).
